@@ -82,6 +82,9 @@ func RunC18(k *fw.Case) {
 		failProb := 0.0
 		if r.Intn(3) == 0 {
 			failProb = 0.3
+			if wide && r.Intn(2) == 0 {
+				failProb = 0.8 // most members of a wide block fail at once
+			}
 		}
 		for j := 0; j < n; j++ {
 			m := concMember{ID: cr.base + 1 + j, Val: int64(1000*(i+1) + j)}
@@ -171,6 +174,10 @@ func RunC18(k *fw.Case) {
 			// the block (and the statement after it) sit in a loop: every pass is a complete fork/join
 			fmt.Fprintf(&b, "  for ci = 0; ci < %d; ci += 1 {\n  if ci >= 0 {\n", cr.reps)
 		}
+		if r.Intn(8) == 0 {
+			b.WriteString("  conc {\n  }\n") // an EMPTY block: nothing to run, nothing fails, the next statement starts
+			k.Count("empty_conc_blocks", 1)
+		}
 		b.WriteString("  conc {\n" + mb.String())
 		cr.afterID = cr.base + 99
 		if cr.reps == 1 && !cr.anyFail && r.Intn(3) == 0 {
@@ -209,7 +216,7 @@ func RunC18(k *fw.Case) {
 	reps := 6
 	for rep := 0; rep < reps; rep++ {
 		vals.reset()
-		if !runConcOnce(k, r, rb, obs, vals, rules, text.String(), lagCat, procs) {
+		if !runConcOnce(k, r, rb, obs, vals, rules, text.String(), lagCat, procs, rep%3 == 2) {
 			break
 		}
 	}
@@ -224,7 +231,7 @@ func (v *valRec) get(id int64) (interface{}, bool) {
 }
 
 // runConcOnce executes the compiled rules once and checks the event log; false stops the case.
-func runConcOnce(k *fw.Case, r *rand.Rand, rb *builder.RuleBuilder, obs *trace.Obs, vals *valRec, rules []*concRule, textS string, lagCat string, procs int) bool {
+func runConcOnce(k *fw.Case, r *rand.Rand, rb *builder.RuleBuilder, obs *trace.Obs, vals *valRec, rules []*concRule, textS string, lagCat string, procs int, concurrentRules bool) bool {
 	lg := trace.NewLog()
 	// one laggard per block, preferring the rotating category
 	holds := 0
@@ -252,7 +259,13 @@ func runConcOnce(k *fw.Case, r *rand.Rand, rb *builder.RuleBuilder, obs *trace.O
 	var pan interface{}
 	func() {
 		defer func() { pan = recover() }()
-		eerr = eng.Execute(rb, true)
+		if concurrentRules {
+			// the five rules - and so their conc blocks - overlap on one data context
+			eerr = eng.ExecuteConcurrent(rb)
+			k.Count("executions_with_overlapping_blocks", 1)
+		} else {
+			eerr = eng.Execute(rb, true)
+		}
 	}()
 	evs := lg.Snapshot()
 	k.Eval(len(rules))
